@@ -57,7 +57,7 @@ def decorate(case, rng, allow_dash_o=True, allow_threads=False):
     """add the layout / history dimensions to a generated case (kept in the case, so that a replay repeats them)"""
     if not isinstance(case, dict) or "layout" in case:
         return case
-    case["layout"] = ",".join(pick_layout(rng) for _ in range(3))
+    case["layout"] = ",".join(pick_layout(rng) + ("!" if rng.random() < 0.15 else "") for _ in range(3))     # "!": read-only
     r = rng.random()
     table = [(0.48, "none"), (0.14, "refill"), (0.04, "hash_twin"), (0.04, "bytes_twin"), (0.04, "dtype_twin"),
              (0.04, "repeat"), (0.05, "alias"), (0.04, "debuglog"), (0.04, "dashO"), (0.05, "threads"), (0.04, "preempt")]
@@ -192,6 +192,17 @@ def arr(values, dtype=None, layout=None):
 
 
 def _lay(a, layout):
+    ro = layout.endswith("!")
+    v = _lay0(a, layout.rstrip("!"))
+    if ro and _ST.hist != "refill":
+        # the caller's array is read-only (memory-mapped data, a frozen configuration): nobody has to write into it
+        if v is a and not a.flags.owndata:
+            v = a.copy()
+        v.flags.writeable = False
+    return v
+
+
+def _lay0(a, layout):
     if layout == "contig" or a.ndim != 1:
         return a
     n = len(a)
@@ -328,3 +339,46 @@ def text(s, rep="plain"):
     if rep == "0d":
         return "".join(list(s))
     return str(bytes(s, "ascii"), "ascii")
+
+
+class LabelSeries:
+    """A column of a data frame after `sort_values`: positional for `len`, iteration, slices and `numpy.asarray`, but an
+    integer subscript looks the row up by its LABEL (pandas.Series semantics); the labels are a permutation of 0..n-1."""
+
+    def __init__(self, values, labels=None):
+        self._v = np.array(values)
+        n = len(self._v)
+        self._lab = list(labels) if labels is not None else [(7 * i + 3) % n if n % 7 else (n - 1 - i) for i in range(n)]
+        if sorted(self._lab) != list(range(n)):
+            self._lab = list(range(n - 1, -1, -1))
+
+    def __len__(self):
+        return len(self._v)
+
+    def __iter__(self):
+        return iter(self._v)
+
+    def __array__(self, dtype=None, copy=None):
+        return np.array(self._v, dtype=dtype)
+
+    def __getitem__(self, k):
+        if isinstance(k, slice):
+            out = LabelSeries.__new__(LabelSeries)
+            out._v, out._lab = self._v[k], self._lab[k]
+            return out
+        if isinstance(k, (int, np.integer)):
+            return self._v[self._lab.index(int(k))]          # by label; KeyError-like ValueError when absent
+        return self._v[np.asarray(k)]
+
+    def copy(self):
+        out = LabelSeries.__new__(LabelSeries)
+        out._v, out._lab = self._v.copy(), list(self._lab)
+        return out
+
+    @property
+    def shape(self):
+        return self._v.shape
+
+    @property
+    def dtype(self):
+        return self._v.dtype
